@@ -19,6 +19,14 @@ from ..format import Format
 odmlns = Format.namespace()
 
 
+def _escape_literal(value):
+    """
+    Escapes a search value for use inside a double quoted SPARQL string literal.
+    """
+    escaped = str(value).replace("\\", "\\\\").replace("\"", "\\\"")
+    return escaped.replace("\n", "\\n").replace("\r", "\\r").replace("\t", "\\t")
+
+
 class BaseQueryCreator:
     """
     An abstract base class for odml specific QueryCreators.
@@ -299,7 +307,7 @@ class QueryCreator(BaseQueryCreator):
                         attr = Document.rdf_map(i[0])
                         if attr:
                             re_sub = re.sub(odml_uri, "odml:", attr)
-                            self.query += "?d {0} \"{1}\" .\n".format(re_sub, i[1])
+                            self.query += "?d {0} \"{1}\" .\n".format(re_sub, _escape_literal(i[1]))
 
         if "Sec" in self.q_dict.keys():
             sec_attrs = self.q_dict["Sec"]
@@ -314,7 +322,7 @@ class QueryCreator(BaseQueryCreator):
                         attr = Section.rdf_map(i[0])
                         if attr:
                             re_sub = re.sub(odml_uri, "odml:", attr)
-                            self.query += "?s {0} \"{1}\" .\n".format(re_sub, i[1])
+                            self.query += "?s {0} \"{1}\" .\n".format(re_sub, _escape_literal(i[1]))
 
         if "Prop" in self.q_dict.keys():
             prop_attrs = self.q_dict["Prop"]
@@ -330,12 +338,12 @@ class QueryCreator(BaseQueryCreator):
                         if values:
                             self.query += "?p odml:hasValue ?v .\n?v rdf:type rdf:Bag .\n"
                             for val in values:
-                                self.query += "?v rdf:li \"{}\" .\n".format(val)
+                                self.query += "?v rdf:li \"{}\" .\n".format(_escape_literal(val))
                     else:
                         attr = Property.rdf_map(i[0])
                         if attr:
                             re_sub = re.sub(odml_uri, "odml:", attr)
-                            self.query += "?p {0} \"{1}\" .\n".format(re_sub, i[1])
+                            self.query += "?p {0} \"{1}\" .\n".format(re_sub, _escape_literal(i[1]))
 
         self.query += "}\n"
         return self.query
